@@ -33,6 +33,7 @@ type Item struct {
 	FollowingSymbol string // The next expected symbol after the item has been recognised
 	Len             int    // the number of symbols making up the body
 	str             string
+	ikey            string // identifies the item within an item set, see key()
 }
 
 // following symbol: the symbol expected after this item has been reduced.
@@ -64,6 +65,7 @@ func NewItem(prodIdx int, prod *ast.SyntaxProd, pos int, followingSymbol string)
 		item.ExpectedSymbol = ""
 	}
 	item.str = item.getString()
+	item.ikey = fmt.Sprintf("%d:%s", item.ProdIdx, item.str)
 	return item
 }
 
@@ -144,4 +146,10 @@ func (this *Item) getString() string {
 
 func (this *Item) String() string {
 	return this.str
+}
+
+// key identifies an item within an item set. Two alternatives with the same head and
+// body are different productions, so the production index is part of the key.
+func (this *Item) key() string {
+	return this.ikey
 }
